@@ -894,8 +894,7 @@ public:
                     break;
                 case csv_parse_state::before_last_quoted_field:
                     end_quoted_string_value(local_visitor, ec);
-                    ++column_index_;
-                    state_ = csv_parse_state::end_record;
+                    state_ = csv_parse_state::before_last_unquoted_field_tail; // closes a list of subfields, counts the field and ends the record
                     break;
                 case csv_parse_state::between_values: // end of input after the closing quote of the last field (and blanks)
                     if (!(ignore_empty_values_ && buffer_.empty()))
